@@ -240,6 +240,7 @@ func applyOpsToView(v *View, s Script) {
 		if op.Act == "del" {
 			continue
 		}
+		w := valW(op.ValOf, w)
 		switch op.Fam {
 		case "ann":
 			v.Ann[op.Key] = strVal(w, "ann", op.Key)
@@ -361,6 +362,7 @@ func Predict(c Case) *Expect {
 				break
 			}
 			owner[it] = pos
+			w := valW(op.ValOf, w)
 			switch op.Fam {
 			case "rlimit":
 				e.Appenders["rlimit"]++
@@ -430,7 +432,7 @@ func Predict(c Case) *Expect {
 			}
 			for _, f := range u.Fields {
 				owner[item{u.Target, "res", f}] = pos
-				val := expectedResValue(f, w)
+				val := expectedResValue(f, valW(u.ValOf, w))
 				e.Updates[u.Target][f] = val
 				if c.Kind == "update" && u.Target == "SELF" {
 					req[f] = val
